@@ -221,6 +221,8 @@ pub enum Stmt {
     If(Vec<(Expr, Vec<Stmt>)>, Option<Vec<Stmt>>),
     /// `{ stopping: - lines - lines }` (also cycle, once)
     SeqBlock(SeqKind, Vec<Vec<TextLine>>),
+    /// `{ var: - 0: block - 1: block - else: block }`
+    Switch(String, Vec<(i32, Vec<Stmt>)>, Option<Vec<Stmt>>),
 }
 
 #[derive(Debug, Clone, PartialEq)]
@@ -363,6 +365,18 @@ fn print_stmt(out: &mut String, s: &Stmt, indent: usize) {
         Stmt::End => out.push_str(&format!("{i}-> END\n")),
         Stmt::Return(None) => out.push_str(&format!("{i}~ return\n")),
         Stmt::Return(Some(e)) => out.push_str(&format!("{i}~ return {}\n", e.print_top())),
+        Stmt::Switch(var, cases, els) => {
+            out.push_str(&format!("{i}{{ {var}:\n"));
+            for (v, b) in cases {
+                out.push_str(&format!("{i}- {v}:\n"));
+                print_stmts(out, b, indent + 1);
+            }
+            if let Some(e) = els {
+                out.push_str(&format!("{i}- else:\n"));
+                print_stmts(out, e, indent + 1);
+            }
+            out.push_str(&format!("{i}}}\n"));
+        }
         Stmt::SeqBlock(kind, branches) => {
             let word = match kind {
                 SeqKind::Stopping => "stopping",
@@ -623,6 +637,15 @@ impl Program {
                     }
                     Stmt::Call(_, _) => {
                         f.insert("call_stmt");
+                    }
+                    Stmt::Switch(_, cases, e) => {
+                        f.insert("switch_block");
+                        for (_, b) in cases {
+                            stmts(b, f);
+                        }
+                        if let Some(e) = e {
+                            stmts(e, f);
+                        }
                     }
                     Stmt::SeqBlock(_, br) => {
                         f.insert("block_sequence");
